@@ -57,23 +57,40 @@ func main() {
 	}
 
 	want := func(name string) bool { return o.Only == "" || o.Only == name }
+	// a panic inside a channel generator (the code under test crashing the harness) is an observation of that channel
+	safely := func(name string, fn func()) {
+		defer func() {
+			if r := recover(); r != nil {
+				ch := vh.NewChannel(name+".harness-crash", "the implementation panicked inside the harness while the "+name+" cases were generated")
+				ch.Error = fmt.Sprint("panic: ", r)
+				rep.Channels = append(rep.Channels, ch)
+			}
+		}()
+		fn()
+	}
 	if want("codec") {
-		runCodecChannels(o, rng.Fork(), rep)
+		r := rng.Fork()
+		safely("codec", func() { runCodecChannels(o, r, rep) })
 	}
 	if want("lids") {
-		runLidsChannels(o, rng.Fork(), rep, tmp)
+		r := rng.Fork()
+		safely("lids", func() { runLidsChannels(o, r, rep, tmp) })
 	}
 	if want("ids") {
-		runIDsChannels(o, rng.Fork(), rep, tmp)
+		r := rng.Fork()
+		safely("ids", func() { runIDsChannels(o, r, rep, tmp) })
 	}
 	if want("tokens") {
-		runTokenChannels(o, rng.Fork(), rep, tmp)
+		r := rng.Fork()
+		safely("tokens", func() { runTokenChannels(o, r, rep, tmp) })
 	}
 	if want("docs") {
-		runDocsChannels(o, rng.Fork(), rep, tmp)
+		r := rng.Fork()
+		safely("docs", func() { runDocsChannels(o, r, rep, tmp) })
 	}
 	if want("sys") {
-		runSystemOracle(o, rng.Fork(), rep, tmp)
+		r := rng.Fork()
+		safely("sys", func() { runSystemOracle(o, r, rep, tmp) })
 	}
 	rep.Write(o.Out)
 }
